@@ -562,26 +562,46 @@ bool vm_ffi_call_cop(VmState *vm, const NvmModule *module, uint32_t import_idx,
                            result, heap, error_msg, error_msg_size);
     }
 
-    /* Build request payload: u32 import_idx + u16 argc + serialized args */
+    /* Build request payload: u32 import_idx + u16 argc + serialized args.
+     * Small requests use the stack buffer; when the arguments do not fit
+     * (long strings, big arrays) the request is rebuilt in a heap buffer that
+     * grows up to the protocol's payload limit. */
     uint8_t payload[8192];
+    uint8_t *req = payload;
+    uint32_t req_cap = sizeof(payload);
     uint32_t pos = 0;
-    memcpy(payload + pos, &import_idx, 4);
-    pos += 4;
     uint16_t argc = (uint16_t)arg_count;
-    memcpy(payload + pos, &argc, 2);
-    pos += 2;
-
-    for (int i = 0; i < arg_count && i < 16; i++) {
-        uint32_t n = cop_serialize_value(&args[i], payload + pos, sizeof(payload) - pos);
-        if (n == 0) {
-            snprintf(error_msg, error_msg_size, "COP: failed to serialize arg %d", i);
+    for (;;) {
+        bool fits = true;
+        int bad_arg = 0;
+        pos = 0;
+        memcpy(req + pos, &import_idx, 4);
+        pos += 4;
+        memcpy(req + pos, &argc, 2);
+        pos += 2;
+        for (int i = 0; i < arg_count && i < 16; i++) {
+            uint32_t n = cop_serialize_value(&args[i], req + pos, req_cap - pos);
+            if (n == 0) { fits = false; bad_arg = i; break; }
+            pos += n;
+        }
+        if (fits) break;
+        if (req != payload) free(req);
+        if (req_cap >= COP_MAX_PAYLOAD) {
+            snprintf(error_msg, error_msg_size, "COP: failed to serialize arg %d", bad_arg);
             return false;
         }
-        pos += n;
+        req_cap = (req_cap > COP_MAX_PAYLOAD / 4) ? COP_MAX_PAYLOAD : req_cap * 4;
+        req = malloc(req_cap);
+        if (!req) {
+            snprintf(error_msg, error_msg_size, "COP: OOM for request (%u bytes)", req_cap);
+            return false;
+        }
     }
 
     /* Send request */
-    if (!cop_send(vm->cop_in_fd, COP_MSG_FFI_REQ, payload, pos)) {
+    bool sent = cop_send(vm->cop_in_fd, COP_MSG_FFI_REQ, req, pos);
+    if (req != payload) free(req);
+    if (!sent) {
         /* Pipe broken — cop crashed during our call */
         vm_ffi_cop_stop(vm);
         snprintf(error_msg, error_msg_size,
